@@ -20,17 +20,35 @@
 (* must then find the duplicate-CEA close and the wedged serve loop.       *)
 (***************************************************************************)
 EXTENDS Integers, Sequences, TLC
-CONSTANTS MaxRetx, MaxPeerMsgs, IgnoreAfterDone
-VARIABLES cli,      \* "start","written","sent","done_ok","done_err"
-          i,        \* loop counter
-          errc,     \* "open","closed"
-          srv,      \* serve goroutine: "idle","sendErr","panicked"
-          meta,     \* peer metadata stored on the connection
-          inq,      \* CEAs in flight to the client: seq of "ok" | "fail"
-          ncer,     \* CERs written
-          closed,   \* transport closed by the library
-          npeer,    \* answers produced so far
-          appOK     \* an application answer sent after the handshake was dispatched
+\* (the @type comments are for Apalache, see HandshakeInd.tla; TLC ignores them)
+CONSTANTS
+  \* @type: Int;
+  MaxRetx,
+  \* @type: Int;
+  MaxPeerMsgs,
+  \* @type: Bool;
+  IgnoreAfterDone
+VARIABLES
+  \* @type: Str;
+  cli,      \* "start","written","sent","done_ok","done_err"
+  \* @type: Int;
+  i,        \* loop counter
+  \* @type: Str;
+  errc,     \* "open","closed"
+  \* @type: Str;
+  srv,      \* serve goroutine: "idle","sendErr","panicked"
+  \* @type: Bool;
+  meta,     \* peer metadata stored on the connection
+  \* @type: Seq(Str);
+  inq,      \* CEAs in flight to the client: seq of "ok" | "fail"
+  \* @type: Int;
+  ncer,     \* CERs written
+  \* @type: Bool;
+  closed,   \* transport closed by the library
+  \* @type: Int;
+  npeer,    \* answers produced so far
+  \* @type: Bool;
+  appOK     \* an application answer sent after the handshake was dispatched
 vars == <<cli, i, errc, srv, meta, inq, ncer, closed, npeer, appOK>>
 
 Init == /\ cli = "start" /\ i = 0 /\ errc = "open" /\ srv = "idle" /\ meta = FALSE /\ inq = <<>>
